@@ -318,6 +318,13 @@ def check(model, rep, tier):
             line=cc.node.lineno, witness='method of a falsy object (empty container)')
 
   # ---------------------------------------------------------------- dependencies
+  rep.depends('C13', ['CALL-FAITHFUL', 'CALL-FALLBACK', 'CALL-PARTIAL'],
+              'calls of converted code go through the call wrapper: a bound method '
+              'must receive its instance exactly once and a partial must bind like '
+              'the direct call, on the conversion and on the fallback path')
+  rep.depends('C15', ['SRC-LAMBDA'],
+              'the converted lambda must be the lambda that was requested, '
+              'otherwise it accepts different calls')
   rep.depends('C08', ['ACT-TRAV'],
               'a parameter the activity analysis does not record as a parameter is '
               'treated as possibly undefined and overwritten with Undefined(...) '
